@@ -95,6 +95,16 @@ check("C08", level="model_checking", engine="lx",
            "operation oracles in src/lx/lx_buildlog.cc. Bounds: 3 edges (one with two outputs, one with a space, one 300 KiB "
            "name), 2 command hashes, small mtime domain; depth and tear caps as reported.", design_ref="5/C08")
 
+check("C09", level="model_checking", engine="lx",
+      technique="explicit-state BFS over deps-log operation sequences x every tear offset x garbage tails x continuations on the real DepsLog, independent reference reader",
+      text="All sequences of deps-log operations up to depth 3 (quick) / 4 (thorough), every byte offset of every reached file "
+           "as a tear point, garbage tails of 1-2 words over a 20-word alphabet and short byte tails, continuations of length "
+           "<= 2/3 after each; after each step the real DepsLog's state (GetDeps of every node, file size after recovery, id "
+           "table) is compared with an independent reader of the bytes and with per-operation expectations.",
+      note="Trusted base: src/common/simfs.cc, src/common/logparse.h (reference reader), oracles in src/lx/lx_depslog.cc. "
+           "Bounds: 2 outputs, 4 dependency paths (all padding cases) + one path at the record size limit, small mtime domain.",
+      design_ref="5/C09")
+
 ALL = ["C%02d" % i for i in range(1, 21)]
 
 
